@@ -24,6 +24,11 @@ type cartConfig struct {
 func cartConfigs() []cartConfig {
 	var out []cartConfig
 	out = append(out, cartConfig{"rom", 0x00, 0, 0})
+	// no controller, but a header that declares more ROM than the 32 KiB the bus reaches, or RAM it has not got
+	for rc := uint8(1); rc <= 3; rc++ {
+		out = append(out, cartConfig{"rom", 0x00, rc, 0})
+	}
+	out = append(out, cartConfig{"rom", 0x00, 0, 2}, cartConfig{"rom", 0x00, 1, 3})
 	for rc := uint8(0); rc <= 6; rc++ {
 		for _, ram := range []uint8{0, 1, 2, 3, 4, 5} {
 			t := uint8(0x03)
